@@ -378,3 +378,769 @@ def expr_section() -> list[str]:
     L.append(f"def exprErrorColOffset : Nat := {f['coloff']}")
     L.append("")
     return L
+
+
+# ================================================================================================
+# ExprTie: the CONTROL STRUCTURE of the parser functions, the lexer loop and the matchers as data
+# (section `extract_exprgen`, consumed by lean/PytaskModel/ExprGen.lean; Properties/ExprTie.lean proves the
+# interpreters of this data equal to the hand-written model Expr.lean).
+#
+# Recognition is on the AST: local names are free (the scanner parameter, the accumulator, helper variables holding a
+# sub-parser's result are identified by their role), comments / docstrings / annotations / `# noqa` are invisible, simple
+# helper assignments are substituted. Anything else raises (fail-closed).
+# ================================================================================================
+
+GRAM_SCHEMA = '''\
+namespace Gram
+/-- One alternative of `not_expr`, tried in order. -/
+inductive Alt where
+  /-- `if s.accept(tok): return UnaryOp(node(), sub(s))` -/
+  | unary (tok sub node : String)
+  /-- `if s.accept(open): ret = sub(s); s.accept(close, reject=closeRequired); return ret` -/
+  | group (open_ sub close : String) (closeRequired : Bool)
+  /-- `ident = s.accept(tok); if ident: return Name(IDENT_PREFIX + ident.value)` (the prefix is stripped again by `MatcherAdapter`) -/
+  | ident (tok : String)
+  deriving Repr, DecidableEq
+/-- A parser function. -/
+inductive Rule where
+  /-- `ret = first(s); while s.accept(cont): rhs = next(s); ret = <node op of ret, rhs built in `shape`>; return ret` -/
+  | loop (first cont next op shape : String)
+  /-- alternatives, then `s.reject(…)` -/
+  | alts (alts : List Alt)
+  deriving Repr, DecidableEq
+/-- `expression`: `if s.accept(eofTok): Constant(emptyConst) else: ret = sub(s); s.accept(eofTok, reject=eofRequired)`. -/
+structure Top where
+  eofTok : String
+  emptyConst : Bool
+  sub : String
+  eofRequired : Bool
+  deriving Repr, DecidableEq
+/-- One branch of the `if/elif` chain in the loop of `Scanner.lex`, tried in order. -/
+inductive LexBranch where
+  /-- `input_[pos] in chars: pos += 1` -/
+  | skip (chars : List Char)
+  /-- `input_[pos] == c: yield Token(kind); pos += 1` -/
+  | single (c : Char) (kind : String)
+  /-- maximal non-empty run over the class (`\\w` if `word`, plus `extra`); keyword chain by whole-match equality, else `fallback` -/
+  | run (extra : List Char) (word : Bool) (keywords : List (List Char × String)) (fallback : String)
+  deriving Repr
+/-- A matcher: where the names come from, what is lower-cased where, and the test. -/
+structure Matcher where
+  sources : List String          -- "name" | "function_dict" | "markers", canonical order
+  lowerNamesAtCreate : Bool
+  lowerQueryAtCall : Bool
+  lowerNamesAtCall : Bool
+  test : String                  -- "substring" (query in name) | "member" (query in names)
+  deriving Repr, DecidableEq
+/-- A `select_by_*` function. -/
+structure Select where
+  noneWhenEmpty : Bool           -- `if not expr: return None`
+  parseErrorIsError : Bool       -- `except ParseError: raise ValueError`
+  matcher : String               -- class whose `from_task(task)` is evaluated
+  guardNonEmpty : Bool           -- `if <expr> and expression.evaluate(…)`
+  closure : Bool                 -- `update(task_and_preceding_tasks(…))` instead of `add(signature)`
+  deriving Repr, DecidableEq
+end Gram
+'''
+
+
+def _gE(msg):
+    return _api().ExtractError("expression grammar: " + msg)
+
+
+def _stmts(fn):
+    return _strip_doc(fn.body)
+
+
+def _tok_kind(node):
+    """`TokenType.K` → K"""
+    if isinstance(node, ast.Attribute) and isinstance(node.value, ast.Name) and node.value.id == "TokenType":
+        return node.attr
+    return None
+
+
+def _accept_call(node, s: str):
+    """`s.accept(TokenType.K[, reject=<bool>])` → (K, reject) else None"""
+    if not (isinstance(node, ast.Call) and isinstance(node.func, ast.Attribute) and node.func.attr == "accept"
+            and isinstance(node.func.value, ast.Name) and node.func.value.id == s and len(node.args) == 1):
+        return None
+    k = _tok_kind(node.args[0])
+    if k is None:
+        return None
+    rej = False
+    for kw in node.keywords:
+        if kw.arg == "reject" and isinstance(kw.value, ast.Constant) and isinstance(kw.value.value, bool):
+            rej = kw.value.value
+        else:
+            return None
+    return k, rej
+
+
+def _sub_call(node, s: str, parsers):
+    """`sub(s)` for a known parser function → its name"""
+    if (isinstance(node, ast.Call) and isinstance(node.func, ast.Name) and node.func.id in parsers and not node.keywords
+            and len(node.args) == 1 and isinstance(node.args[0], ast.Name) and node.args[0].id == s):
+        return node.func.id
+    return None
+
+
+def _astcls(node):
+    """`ast.X` or `X` → X"""
+    if isinstance(node, ast.Attribute) and isinstance(node.value, ast.Name) and node.value.id == "ast":
+        return node.attr
+    if isinstance(node, ast.Name):
+        return node.id
+    return None
+
+
+def _astnode(node, cls: str):
+    """`ast.<cls>(args…)` → positional args (keywords by name appended in the constructor's field order are not supported)"""
+    if isinstance(node, ast.Call) and _astcls(node.func) == cls and not node.keywords:
+        return node.args
+    return None
+
+
+def _target(st):
+    """(name, value) of `x = v` / `x: T = v`"""
+    if isinstance(st, ast.Assign) and len(st.targets) == 1 and isinstance(st.targets[0], ast.Name):
+        return st.targets[0].id, st.value
+    if isinstance(st, ast.AnnAssign) and isinstance(st.target, ast.Name) and st.value is not None:
+        return st.target.id, st.value
+    return None
+
+
+def _count_calls(nodes, names) -> int:
+    n = 0
+    for st in nodes:
+        for x in ast.walk(st):
+            if isinstance(x, ast.Call) and isinstance(x.func, ast.Name) and x.func.id in names:
+                n += 1
+    return n
+
+
+def _boolop(node, acc: str, rhs_ok):
+    """`ast.BoolOp(ast.OP(), [acc, <rhs>])` → OP"""
+    a = _astnode(node, "BoolOp")
+    if a is None or len(a) != 2:
+        return None
+    opn = "Or" if _astnode(a[0], "Or") == [] else "And" if _astnode(a[0], "And") == [] else None
+    if opn is None:
+        return None
+    if not isinstance(a[1], (ast.List, ast.Tuple)) or len(a[1].elts) != 2:
+        return None
+    l, r = a[1].elts
+    if not (isinstance(l, ast.Name) and l.id == acc and rhs_ok(r)):
+        return None
+    return opn
+
+
+def _boolop_flat(node, acc: str, rhs_ok):
+    """`ast.BoolOp(ast.OP(), [*acc.values, <rhs>])` → OP"""
+    a = _astnode(node, "BoolOp")
+    if a is None or len(a) != 2 or not isinstance(a[1], (ast.List, ast.Tuple)) or len(a[1].elts) != 2:
+        return None
+    opn = "Or" if _astnode(a[0], "Or") == [] else "And" if _astnode(a[0], "And") == [] else None
+    l, r = a[1].elts
+    if opn and isinstance(l, ast.Starred) and ast.unparse(l.value) == f"{acc}.values" and rhs_ok(r):
+        return opn
+    return None
+
+
+def _flat_cond(test, acc: str):
+    """`isinstance(acc, ast.BoolOp)` → "any";  `… and isinstance(acc.op, ast.OP)` → OP;  else None"""
+    def isinst(n, subj, clsname=None):
+        if not (isinstance(n, ast.Call) and isinstance(n.func, ast.Name) and n.func.id == "isinstance" and len(n.args) == 2
+                and ast.unparse(n.args[0]) == subj):
+            return None
+        c = _astcls(n.args[1])
+        return c
+    if isinst(test, acc) == "BoolOp":
+        return "any"
+    if isinstance(test, ast.BoolOp) and isinstance(test.op, ast.And) and len(test.values) == 2:
+        if isinst(test.values[0], acc) == "BoolOp":
+            c = isinst(test.values[1], f"{acc}.op")
+            if c in ("Or", "And"):
+                return c
+    return None
+
+
+def _loop_rule(fn, parsers):
+    s = fn.args.args[0].arg if fn.args.args else None
+    body = _stmts(fn)
+    if s is None or len(body) != 3:
+        raise _gE(f"{fn.name}: expected `acc = sub(s); while s.accept(K): …; return acc`")
+    first = _target(body[0])
+    if first is None or _sub_call(first[1], s, parsers) is None:
+        raise _gE(f"{fn.name}: first statement {ast.unparse(body[0])!r} is not `acc = <parser>(s)`")
+    acc, sub1 = first[0], _sub_call(first[1], s, parsers)
+    loop = body[1]
+    if not isinstance(loop, ast.While) or loop.orelse:
+        raise _gE(f"{fn.name}: second statement is not a `while` loop")
+    ac = _accept_call(loop.test, s)
+    if ac is None or ac[1]:
+        raise _gE(f"{fn.name}: loop condition {ast.unparse(loop.test)!r} is not `s.accept(TokenType.K)`")
+    if not (isinstance(body[2], ast.Return) and isinstance(body[2].value, ast.Name) and body[2].value.id == acc):
+        raise _gE(f"{fn.name}: does not end with `return {acc}`")
+    lb = list(loop.body)
+    if _count_calls(lb, parsers) != 1:
+        raise _gE(f"{fn.name}: the loop body must call exactly one sub-parser exactly once")
+    # helper variables holding the right operand
+    rhs_names = {}
+    rest = []
+    for st in lb:
+        t = _target(st)
+        if t is not None and t[0] != acc and _sub_call(t[1], s, parsers):
+            if rest:
+                raise _gE(f"{fn.name}: the right operand is parsed after the node is built")
+            rhs_names[t[0]] = _sub_call(t[1], s, parsers)
+        else:
+            rest.append(st)
+    found = {}
+
+    def rhs_ok(n):
+        if isinstance(n, ast.Name) and n.id in rhs_names:
+            found["sub"] = rhs_names[n.id]
+            return True
+        c = _sub_call(n, s, parsers)
+        if c and not rhs_names:
+            found["sub"] = c
+            return True
+        return False
+
+    if len(rest) != 1:
+        raise _gE(f"{fn.name}: loop body has {len(rest)} statements besides the operand, expected the node construction only")
+    st = rest[0]
+    op = shape = None
+    t = _target(st)
+    if t is not None and t[0] == acc:
+        v = t[1]
+        o = _boolop(v, acc, rhs_ok)
+        if o:
+            op, shape = o, "nested"
+        elif isinstance(v, ast.IfExp):
+            test, a, b = v.test, v.body, v.orelse
+            if isinstance(test, ast.UnaryOp) and isinstance(test.op, ast.Not):
+                test, a, b = test.operand, b, a
+            c, of, on = _flat_cond(test, acc), _boolop_flat(a, acc, rhs_ok), _boolop(b, acc, rhs_ok)
+            if c and of and on and of == on:
+                op = on
+                shape = "flatSameOp" if c == on else "flatAnyBoolOp" if c == "any" else None
+    elif isinstance(st, ast.If) and len(st.body) == 1 and len(st.orelse) == 1:
+        c = _flat_cond(st.test, acc)
+        app = st.body[0]
+        is_app = (isinstance(app, ast.Expr) and isinstance(app.value, ast.Call) and ast.unparse(app.value.func) == f"{acc}.values.append"
+                  and len(app.value.args) == 1 and rhs_ok(app.value.args[0]))
+        t2 = _target(st.orelse[0])
+        on = _boolop(t2[1], acc, rhs_ok) if t2 is not None and t2[0] == acc else None
+        if c and is_app and on:
+            op = on
+            shape = "flatSameOp" if c == on else "flatAnyBoolOp" if c == "any" else None
+    if not op or not shape or "sub" not in found:
+        raise _gE(f"{fn.name}: node construction {ast.unparse(st)!r} is not a recognised BoolOp construction")
+    return ("loop", sub1, ac[0], found["sub"], op, shape)
+
+
+def _alts_rule(fn, parsers, prefix_name):
+    s = fn.args.args[0].arg if fn.args.args else None
+    body = _stmts(fn)
+    alts = []
+    i = 0
+    pending_ident = None   # (var, tok)
+    rejects = False
+    while i < len(body):
+        st = body[i]
+        i += 1
+        t = _target(st)
+        if t is not None:
+            ac = _accept_call(t[1], s)
+            if ac is None or ac[1] or pending_ident:
+                raise _gE(f"{fn.name}: unrecognised statement {ast.unparse(st)!r}")
+            pending_ident = (t[0], ac[0])
+            continue
+        if isinstance(st, ast.If) and not st.orelse:
+            test = st.test
+            if pending_ident:
+                var, tok = pending_ident
+                ok_test = (isinstance(test, ast.Name) and test.id == var) or ast.unparse(test) == f"{var} is not None"
+                ret = st.body[0] if len(st.body) == 1 and isinstance(st.body[0], ast.Return) else None
+                a = _astnode(ret.value, "Name") if ret is not None and ret.value is not None else None
+                if not ok_test or a is None or not a:
+                    raise _gE(f"{fn.name}: identifier alternative {ast.unparse(st)!r} not recognised")
+                idn = a[0]
+                if not (isinstance(idn, ast.BinOp) and isinstance(idn.op, ast.Add) and isinstance(idn.left, ast.Name)
+                        and idn.left.id == prefix_name and ast.unparse(idn.right) == f"{var}.value"):
+                    raise _gE(f"{fn.name}: the identifier is not `Name({prefix_name} + {var}.value)`")
+                if len(a) > 1 and _astnode(a[1], "Load") is None:
+                    raise _gE(f"{fn.name}: identifier context is not Load")
+                alts.append(("ident", tok))
+                pending_ident = None
+                continue
+            ac = _accept_call(test, s)
+            if ac is None or ac[1]:
+                raise _gE(f"{fn.name}: condition {ast.unparse(test)!r} is not `s.accept(TokenType.K)`")
+            b = list(st.body)
+            if len(b) == 1 and isinstance(b[0], ast.Return) and b[0].value is not None:
+                a = _astnode(b[0].value, "UnaryOp")
+                if a is not None and len(a) == 2 and _astnode(a[0], "Not") is not None and _sub_call(a[1], s, parsers):
+                    alts.append(("unary", ac[0], _sub_call(a[1], s, parsers), "Not"))
+                    continue
+                raise _gE(f"{fn.name}: {ast.unparse(b[0])!r} is not `return UnaryOp(Not(), <parser>(s))`")
+            if len(b) == 3:
+                t1 = _target(b[0])
+                ac2 = _accept_call(b[1].value, s) if isinstance(b[1], ast.Expr) else None
+                if (t1 is not None and _sub_call(t1[1], s, parsers) and ac2 is not None and isinstance(b[2], ast.Return)
+                        and isinstance(b[2].value, ast.Name) and b[2].value.id == t1[0]):
+                    alts.append(("group", ac[0], _sub_call(t1[1], s, parsers), ac2[0], ac2[1]))
+                    continue
+            raise _gE(f"{fn.name}: alternative {ast.unparse(st)!r} not recognised")
+        # final reject
+        call = st.value if isinstance(st, (ast.Expr, ast.Return)) else None
+        if (isinstance(call, ast.Call) and isinstance(call.func, ast.Attribute) and call.func.attr == "reject"
+                and isinstance(call.func.value, ast.Name) and call.func.value.id == s and i == len(body)):
+            rejects = True
+            continue
+        raise _gE(f"{fn.name}: unrecognised statement {ast.unparse(st)!r}")
+    if pending_ident or not rejects or not alts:
+        raise _gE(f"{fn.name}: alternatives must end with `s.reject(…)`")
+    return ("alts", alts)
+
+
+def _top_rule(fn, parsers):
+    s = fn.args.args[0].arg if fn.args.args else None
+    body = _stmts(fn)
+    if len(body) != 2 or not isinstance(body[0], ast.If) or not isinstance(body[1], ast.Return):
+        raise _gE(f"{fn.name}: expected `if s.accept(EOF): … else: …; return …`")
+    iff = body[0]
+    ac = _accept_call(iff.test, s)
+    if ac is None or ac[1]:
+        raise _gE(f"{fn.name}: condition {ast.unparse(iff.test)!r} is not `s.accept(TokenType.K)`")
+    t = _target(iff.body[0]) if len(iff.body) == 1 else None
+    c = _astnode(t[1], "Constant") if t else None
+    if not c or len(c) != 1 or not isinstance(c[0], ast.Constant) or not isinstance(c[0].value, bool):
+        raise _gE(f"{fn.name}: the empty expression is not `ret = Constant(<bool>)`")
+    ret = t[0]
+    eb = iff.orelse
+    t2 = _target(eb[0]) if len(eb) == 2 else None
+    ac2 = _accept_call(eb[1].value, s) if len(eb) == 2 and isinstance(eb[1], ast.Expr) else None
+    if not (t2 and t2[0] == ret and _sub_call(t2[1], s, parsers) and ac2 and ac2[0] == ac[0]):
+        raise _gE(f"{fn.name}: else branch is not `ret = <parser>(s); s.accept(TokenType.{ac[0]}, reject=…)`")
+    rv = body[1].value
+    # return [fix_missing_locations](Expression(ret))
+    inner = rv
+    if isinstance(inner, ast.Call) and ast.unparse(inner.func).endswith("fix_missing_locations") and len(inner.args) == 1:
+        inner = inner.args[0]
+    a = _astnode(inner, "Expression")
+    if not (a and len(a) == 1 and isinstance(a[0], ast.Name) and a[0].id == ret):
+        raise _gE(f"{fn.name}: does not return `Expression({ret})`")
+    return {"eof": ac[0], "const": c[0].value, "sub": _sub_call(t2[1], s, parsers), "eofreq": ac2[1]}
+
+
+def _check_accept(mod):
+    """`Scanner.accept`: returns the current token and advances (unless EOF) iff its type is the requested one; rejects when asked."""
+    sc = _cls(_gE, mod, "Scanner")
+    fn = _method(_gE, sc, "accept")
+    body = _stmts(fn)
+    a = fn.args
+    names = [x.arg for x in a.args + a.kwonlyargs]
+    if len(names) != 3 or len(body) != 3:
+        raise _gE("Scanner.accept: unexpected signature / number of statements")
+    slf, ty, rj = names
+    i1, i2, r = body
+    if not (isinstance(i1, ast.If) and not i1.orelse and ast.unparse(i1.test) in (f"{slf}.current.type_ is {ty}", f"{slf}.current.type_ == {ty}")):
+        raise _gE("Scanner.accept: first statement is not `if self.current.type_ is type_:`")
+    b = list(i1.body)
+    t = _target(b[0]) if b else None
+    if not (len(b) == 3 and t and ast.unparse(t[1]) == f"{slf}.current" and isinstance(b[1], ast.If) and not b[1].orelse
+            and ast.unparse(b[1].test) in (f"{t[0]}.type_ is not TokenType.EOF", f"{t[0]}.type_ != TokenType.EOF")
+            and len(b[1].body) == 1 and ast.unparse(b[1].body[0]) == f"{slf}.current = next({slf}.tokens)"
+            and isinstance(b[2], ast.Return) and ast.unparse(b[2].value) == t[0]):
+        raise _gE("Scanner.accept: matching branch is not `token = self.current; if token is not EOF: self.current = next(self.tokens); return token`")
+    if not (isinstance(i2, ast.If) and not i2.orelse and ast.unparse(i2.test) == rj and len(i2.body) == 1
+            and ast.unparse(i2.body[0]).replace(" ", "") == f"{slf}.reject(({ty},))"):
+        raise _gE("Scanner.accept: second statement is not `if reject: self.reject((type_,))`")
+    if not (isinstance(r, ast.Return) and (r.value is None or (isinstance(r.value, ast.Constant) and r.value.value is None))):
+        raise _gE("Scanner.accept: does not end with `return None`")
+    init = _method(_gE, sc, "__init__")
+    src = [ast.unparse(x) for x in _stmts(init)]
+    arg = init.args.args[1].arg if len(init.args.args) == 2 else None
+    if src != [f"self.tokens = self.lex({arg})", "self.current = next(self.tokens)"]:
+        raise _gE("Scanner.__init__ is not `self.tokens = self.lex(input_); self.current = next(self.tokens)`")
+
+
+def _check_compile_evaluate(mod, top_name, prefix_name):
+    ex = _cls(_gE, mod, "Expression")
+    comp = _method(_gE, ex, "compile_")
+    body = _stmts(comp)
+    arg = comp.args.args[1].arg if len(comp.args.args) == 2 else None
+    t = _target(body[0]) if len(body) == 3 else None
+    if not (t and ast.unparse(t[1]) == f"{top_name}(Scanner({arg}))"):
+        raise _gE(f"Expression.compile_: first statement is not `astexpr = {top_name}(Scanner({arg}))`")
+    t2 = _target(body[1])
+    c = t2[1] if t2 else None
+    if not (isinstance(c, ast.Call) and isinstance(c.func, ast.Name) and c.func.id == "compile" and c.args
+            and isinstance(c.args[0], ast.Name) and c.args[0].id == t[0]
+            and any(kw.arg == "mode" and isinstance(kw.value, ast.Constant) and kw.value.value == "eval" for kw in c.keywords)):
+        raise _gE("Expression.compile_: the tree is not compiled with compile(astexpr, …, mode='eval')")
+    if not (isinstance(body[2], ast.Return) and ast.unparse(body[2].value) == f"cls({t2[0]})"):
+        raise _gE("Expression.compile_: does not return cls(code)")
+    ev = _method(_gE, ex, "evaluate")
+    m = ev.args.args[1].arg if len(ev.args.args) == 2 else None
+    calls = [n for n in ast.walk(ev) if isinstance(n, ast.Call) and isinstance(n.func, ast.Name) and n.func.id == "eval"]
+    if len(calls) != 1 or len(calls[0].args) != 3 or ast.unparse(calls[0].args[0]) != "self.code" \
+            or ast.unparse(calls[0].args[2]) != f"MatcherAdapter({m})":
+        raise _gE("Expression.evaluate: not `eval(self.code, …, MatcherAdapter(matcher))`")
+    rets = [n for n in ast.walk(ev) if isinstance(n, ast.Return)]
+    tgt = [_target(x) for x in _stmts(ev)]
+    ok = len(rets) == 1 and (rets[0].value is calls[0] or (isinstance(rets[0].value, ast.Name) and any(
+        t3 and t3[0] == rets[0].value.id and t3[1] is calls[0] for t3 in tgt)))
+    if not ok:
+        raise _gE("Expression.evaluate: does not return the value of eval(…)")
+    ad = _cls(_gE, mod, "MatcherAdapter")
+    gi = _method(_gE, ad, "__getitem__")
+    key = gi.args.args[1].arg if len(gi.args.args) == 2 else None
+    b = _stmts(gi)
+    want = f"self.matcher({key}[len({prefix_name}):])"
+    if not (len(b) == 1 and isinstance(b[0], ast.Return) and ast.unparse(b[0].value).replace(" ", "") == want):
+        raise _gE(f"MatcherAdapter.__getitem__ is not `return {want}` (the prefix added by the parser must be stripped again)")
+    ini = _method(_gE, ad, "__init__")
+    if [ast.unparse(x) for x in _stmts(ini)] != [f"self.matcher = {ini.args.args[1].arg}"]:
+        raise _gE("MatcherAdapter.__init__ does not store the matcher")
+
+
+def grammar_facts(mod: ast.Module):
+    funcs = {n.name: n for n in mod.body if isinstance(n, ast.FunctionDef)}
+    prefix = [t for t in (_target(n) for n in mod.body) if t and isinstance(t[1], ast.Constant) and isinstance(t[1].value, str)
+              and t[0].isupper() and "PREFIX" in t[0]]
+    if len(prefix) != 1 or not prefix[0][1].value:
+        raise _gE("IDENT_PREFIX (a non-empty module-level string constant) not found")
+    prefix_name = prefix[0][0]
+    # parser functions: module-level functions with exactly one parameter annotated / used as the scanner
+    parsers = {name for name, fn in funcs.items() if len(fn.args.args) == 1 and not fn.args.kwonlyargs
+               and any(isinstance(x, ast.Attribute) and x.attr in ("accept", "reject") for x in ast.walk(fn))}
+    rules = {}
+    top = None
+    top_name = None
+    for name in sorted(parsers, key=lambda n: funcs[n].lineno):
+        fn = funcs[name]
+        body = _stmts(fn)
+        if body and isinstance(body[0], ast.If) and isinstance(body[-1], ast.Return) and len(body) == 2:
+            if top is not None:
+                raise _gE("more than one top-level rule")
+            top, top_name = _top_rule(fn, parsers), name
+        elif any(isinstance(x, ast.While) for x in body):
+            rules[name] = _loop_rule(fn, parsers)
+        else:
+            rules[name] = _alts_rule(fn, parsers, prefix_name)
+    if top is None:
+        raise _gE("top-level rule (`expression`) not found")
+    _check_accept(mod)
+    _check_compile_evaluate(mod, top_name, prefix_name)
+    return top, rules
+
+
+# ---- matchers and selections (mark/__init__.py) --------------------------------------------------------------------------------
+
+def _mE(msg):
+    return _api().ExtractError("matchers: " + msg)
+
+
+def _lowered(node, var: str) -> bool:
+    return ast.unparse(node) == f"{var}.lower()"
+
+
+def _subst(node, env):
+    """substitute helper names by their defining expressions (one level is enough for these bodies)"""
+    class T(ast.NodeTransformer):
+        def visit_Name(self, n):
+            return env.get(n.id, n) if isinstance(n.ctx, ast.Load) else n
+    import copy
+    return T().visit(copy.deepcopy(node))
+
+
+def _names_iter(node, field: str):
+    """A generator / set comprehension over `self.<field>`: (element variable, element expression) or the bare attribute."""
+    if ast.unparse(node) == f"self.{field}":
+        return None, None
+    if isinstance(node, (ast.GeneratorExp, ast.SetComp, ast.ListComp)) and len(node.generators) == 1:
+        g = node.generators[0]
+        if ast.unparse(g.iter) == f"self.{field}" and isinstance(g.target, ast.Name) and not g.ifs:
+            return g.target.id, node.elt
+    raise _mE(f"{ast.unparse(node)!r} is not an iteration over self.{field}")
+
+
+def _source_of(node, task: str):
+    """which names an expression adds to the matcher's name set"""
+    src = ast.unparse(node)
+    if src in (f"{{{task}.name}}", f"[{task}.name]", f"({task}.name,)"):
+        return "name"
+    if src == f"{task}.function.__dict__":
+        return "function_dict"
+    if isinstance(node, (ast.GeneratorExp, ast.SetComp, ast.ListComp)) and len(node.generators) == 1:
+        g = node.generators[0]
+        if ast.unparse(g.iter) == f"{task}.markers" and isinstance(g.target, ast.Name) and not g.ifs \
+                and ast.unparse(node.elt) == f"{g.target.id}.name":
+            return "markers"
+    return None
+
+
+def _from_task(cls: ast.ClassDef):
+    fn = _method(_mE, cls, "from_task")
+    if not any(ast.unparse(d) == "classmethod" for d in fn.decorator_list) or len(fn.args.args) != 2:
+        raise _mE(f"{cls.name}.from_task is not a classmethod of one argument")
+    c, task = fn.args.args[0].arg, fn.args.args[1].arg
+    body = _stmts(fn)
+    if not body or not isinstance(body[-1], ast.Return):
+        raise _mE(f"{cls.name}.from_task does not end with return")
+    acc = None
+    sources = []
+    for st in body[:-1]:
+        t = _target(st)
+        if t is not None and acc is None:
+            acc = t[0]
+            if isinstance(t[1], ast.Set):
+                for e in t[1].elts:
+                    s = _source_of(ast.Set(elts=[e]), task)
+                    if s is None:
+                        raise _mE(f"{cls.name}.from_task: unrecognised name source {ast.unparse(e)!r}")
+                    sources.append(s)
+            else:
+                s = _source_of(t[1], task)
+                if s is None:
+                    raise _mE(f"{cls.name}.from_task: unrecognised name source {ast.unparse(t[1])!r}")
+                sources.append(s)
+            continue
+        if (isinstance(st, ast.Expr) and isinstance(st.value, ast.Call) and acc is not None
+                and ast.unparse(st.value.func) == f"{acc}.update" and len(st.value.args) == 1):
+            s = _source_of(st.value.args[0], task)
+            if s is None:
+                raise _mE(f"{cls.name}.from_task: unrecognised name source {ast.unparse(st.value.args[0])!r}")
+            sources.append(s)
+            continue
+        raise _mE(f"{cls.name}.from_task: unrecognised statement {ast.unparse(st)!r}")
+    rv = body[-1].value
+    if not (isinstance(rv, ast.Call) and isinstance(rv.func, ast.Name) and rv.func.id == c and len(rv.args) == 1 and not rv.keywords):
+        raise _mE(f"{cls.name}.from_task does not return cls(<names>)")
+    arg = rv.args[0]
+    lower_create = False
+    if acc is not None and isinstance(arg, ast.Name) and arg.id == acc:
+        pass
+    elif acc is None and _source_of(arg, task):
+        sources.append(_source_of(arg, task))
+    elif (acc is not None and isinstance(arg, (ast.SetComp, ast.GeneratorExp, ast.ListComp)) and len(arg.generators) == 1
+          and ast.unparse(arg.generators[0].iter) == acc and isinstance(arg.generators[0].target, ast.Name) and not arg.generators[0].ifs
+          and _lowered(arg.elt, arg.generators[0].target.id)):
+        lower_create = True
+    else:
+        raise _mE(f"{cls.name}.from_task: returned names {ast.unparse(arg)!r} not recognised")
+    rank = {"name": 0, "function_dict": 1, "markers": 2}
+    if len(set(sources)) != len(sources):
+        raise _mE(f"{cls.name}.from_task: a name source is used twice")
+    return sorted(sources, key=rank.get), lower_create
+
+
+def _field_of(cls: ast.ClassDef) -> str:
+    fields = [n.target.id for n in cls.body if isinstance(n, ast.AnnAssign) and isinstance(n.target, ast.Name)]
+    if len(fields) != 1:
+        raise _mE(f"{cls.name}: expected exactly one attribute")
+    return fields[0].lstrip("_") if False else fields[0]
+
+
+def matcher_facts(mod: ast.Module):
+    out = {}
+    for cname in ("KeywordMatcher", "MarkMatcher"):
+        cls = _cls(_mE, mod, cname)
+        field = _field_of(cls)
+        sources, lower_create = _from_task(cls)
+        call = _method(_mE, cls, "__call__")
+        if len(call.args.args) != 2:
+            raise _mE(f"{cname}.__call__ takes one argument")
+        q = call.args.args[1].arg
+        body = _stmts(call)
+        if not body or not isinstance(body[-1], ast.Return):
+            raise _mE(f"{cname}.__call__ does not end with return")
+        env = {}
+        lower_q = False
+        for st in body[:-1]:
+            t = _target(st)
+            if t is None:
+                raise _mE(f"{cname}.__call__: unrecognised statement {ast.unparse(st)!r}")
+            if t[0] == q:
+                if not _lowered(t[1], q):
+                    raise _mE(f"{cname}.__call__: the query is rebound to {ast.unparse(t[1])!r}")
+                lower_q = True
+            else:
+                env[t[0]] = t[1]
+        rv = _subst(body[-1].value, env)
+        lower_n = False
+        if isinstance(rv, ast.Compare) and len(rv.ops) == 1 and isinstance(rv.ops[0], ast.In):
+            # query in self.names
+            l = rv.left
+            if _lowered(l, q):
+                lower_q = True
+            elif not (isinstance(l, ast.Name) and l.id == q):
+                raise _mE(f"{cname}.__call__: left side of `in` is {ast.unparse(l)!r}")
+            v, elt = _names_iter(rv.comparators[0], field)
+            if v is not None:
+                if _lowered(elt, v):
+                    lower_n = True
+                elif not (isinstance(elt, ast.Name) and elt.id == v):
+                    raise _mE(f"{cname}.__call__: names are transformed by {ast.unparse(elt)!r}")
+            test = "member"
+        elif (isinstance(rv, ast.Call) and isinstance(rv.func, ast.Name) and rv.func.id == "any" and len(rv.args) == 1
+              and isinstance(rv.args[0], (ast.GeneratorExp, ast.ListComp)) and len(rv.args[0].generators) == 1):
+            g = rv.args[0].generators[0]
+            if not isinstance(g.target, ast.Name) or g.ifs:
+                raise _mE(f"{cname}.__call__: unrecognised generator")
+            nm = g.target.id
+            v, elt = _names_iter(g.iter, field)
+            if v is not None:
+                if _lowered(elt, v):
+                    lower_n = True
+                elif not (isinstance(elt, ast.Name) and elt.id == v):
+                    raise _mE(f"{cname}.__call__: names are transformed by {ast.unparse(elt)!r}")
+            cmp_ = rv.args[0].elt
+            if not (isinstance(cmp_, ast.Compare) and len(cmp_.ops) == 1 and isinstance(cmp_.ops[0], ast.In)):
+                raise _mE(f"{cname}.__call__: element test {ast.unparse(cmp_)!r} is not `query in name`")
+            l, r = cmp_.left, cmp_.comparators[0]
+            if _lowered(l, q):
+                lower_q = True
+            elif not (isinstance(l, ast.Name) and l.id == q):
+                raise _mE(f"{cname}.__call__: the needle is {ast.unparse(l)!r}, not the query")
+            if _lowered(r, nm):
+                lower_n = True
+            elif not (isinstance(r, ast.Name) and r.id == nm):
+                raise _mE(f"{cname}.__call__: the haystack is {ast.unparse(r)!r}, not the name")
+            test = "substring"
+        else:
+            raise _mE(f"{cname}.__call__: {ast.unparse(rv)!r} is neither `any(query in name for name in names)` nor `query in names`")
+        out[cname] = {"sources": sources, "lower_create": lower_create, "lower_q": lower_q, "lower_n": lower_n, "test": test}
+    return out
+
+
+def select_facts(mod: ast.Module):
+    out = {}
+    for fname in ("select_by_keyword", "select_by_mark", "select_by_after_keyword"):
+        fns = [n for n in mod.body if isinstance(n, ast.FunctionDef) and n.name == fname]
+        if len(fns) != 1:
+            raise _mE(f"{fname} not found")
+        fn = fns[0]
+        body = _stmts(fn)
+        params = [a.arg for a in fn.args.args]
+        # the expression text: a parameter, or a local read from session.config[...]
+        exprvar = None
+        none_when_empty = False
+        i = 0
+        t = _target(body[0])
+        if t is not None and ast.unparse(t[1]).startswith(f"{params[0]}.config["):
+            exprvar = t[0]
+            i = 1
+        elif len(params) == 2 and fname == "select_by_after_keyword":
+            exprvar = params[1]
+        else:
+            raise _mE(f"{fname}: where the expression comes from is not recognised")
+        if isinstance(body[i], ast.If) and not body[i].orelse and ast.unparse(body[i].test) == f"not {exprvar}":
+            b = body[i].body
+            if not (len(b) == 1 and isinstance(b[0], ast.Return) and (b[0].value is None or ast.unparse(b[0].value) == "None")):
+                raise _mE(f"{fname}: `if not {exprvar}:` does not return None")
+            none_when_empty = True
+            i += 1
+        tr = body[i]
+        if not (isinstance(tr, ast.Try) and len(tr.body) == 1 and len(tr.handlers) == 1 and not tr.orelse and not tr.finalbody):
+            raise _mE(f"{fname}: expected `try: expression = Expression.compile_(…) except ParseError: raise ValueError`")
+        t = _target(tr.body[0])
+        if not (t and ast.unparse(t[1]) == f"Expression.compile_({exprvar})"):
+            raise _mE(f"{fname}: the compiled text is {ast.unparse(tr.body[0])!r}, not Expression.compile_({exprvar})")
+        ev = t[0]
+        h = tr.handlers[0]
+        raises = [n for n in ast.walk(h) if isinstance(n, ast.Raise)]
+        if not (ast.unparse(h.type) == "ParseError" and len(raises) == 1 and raises[0].exc is not None
+                and "ValueError" in ast.unparse(raises[0].exc)):
+            raise _mE(f"{fname}: ParseError is not turned into ValueError")
+        i += 1
+        t = _target(body[i])
+        if not (t and ast.unparse(t[1]) == "set()"):
+            raise _mE(f"{fname}: result set not initialised with set()")
+        res = t[0]
+        i += 1
+        loop = body[i]
+        if not (isinstance(loop, ast.For) and ast.unparse(loop.iter) == f"{params[0]}.tasks" and isinstance(loop.target, ast.Name)
+                and len(loop.body) == 1 and isinstance(loop.body[0], ast.If) and not loop.body[0].orelse and not loop.orelse):
+            raise _mE(f"{fname}: expected `for task in session.tasks: if …: …`")
+        task = loop.target.id
+        cond = loop.body[0].test
+        guard = False
+        if isinstance(cond, ast.BoolOp) and isinstance(cond.op, ast.And) and len(cond.values) == 2 \
+                and isinstance(cond.values[0], ast.Name) and cond.values[0].id == exprvar:
+            guard = True
+            cond = cond.values[1]
+        m = None
+        for cname in ("KeywordMatcher", "MarkMatcher"):
+            if ast.unparse(cond) == f"{ev}.evaluate({cname}.from_task({task}))":
+                m = cname
+        if m is None:
+            raise _mE(f"{fname}: condition {ast.unparse(cond)!r} is not `expression.evaluate(<Matcher>.from_task(task))`")
+        act = loop.body[0].body
+        src = ast.unparse(act[0]) if len(act) == 1 else ""
+        dagp = params[1] if len(params) > 1 else "dag"
+        if src == f"{res}.update(task_and_preceding_tasks({task}.signature, {dagp}))":
+            closure = True
+        elif src == f"{res}.add({task}.signature)":
+            closure = False
+        else:
+            raise _mE(f"{fname}: selected tasks are recorded by {src!r}")
+        i += 1
+        if not (i == len(body) - 1 and isinstance(body[i], ast.Return) and ast.unparse(body[i].value) == res):
+            raise _mE(f"{fname}: does not end with `return {res}`")
+        out[fname] = {"none": none_when_empty, "matcher": m, "guard": guard, "closure": closure}
+    return out
+
+
+def _lean_s(s):
+    return _api().lean_str(s)
+
+
+def grammar_section() -> list[str]:
+    """Section `extract_exprgen` of Generated.lean."""
+    X = _api()
+    try:
+        mod = ast.parse((X.SRC / "mark" / "expression.py").read_text())
+        mmod = ast.parse((X.SRC / "mark" / "__init__.py").read_text())
+    except (OSError, SyntaxError) as e:
+        raise X.ExtractError(f"cannot parse mark/: {e}") from None
+    f = lex_facts(lambda m: X.ExtractError("expression.py: " + m), mod)
+    top, rules = grammar_facts(mod)
+    mf = matcher_facts(mmod)
+    sf = select_facts(mmod)
+    b = X.lean_bool
+    L = [GRAM_SCHEMA]
+
+    def alt(a):
+        if a[0] == "unary":
+            return f".unary {_lean_s(a[1])} {_lean_s(a[2])} {_lean_s(a[3])}"
+        if a[0] == "group":
+            return f".group {_lean_s(a[1])} {_lean_s(a[2])} {_lean_s(a[3])} {b(a[4])}"
+        return f".ident {_lean_s(a[1])}"
+
+    def rule(r):
+        if r[0] == "loop":
+            return ".loop " + " ".join(_lean_s(x) for x in r[1:])
+        return ".alts " + X.lean_list(r[1], alt)
+
+    L.append("/-- The parser functions of mark/expression.py in definition order: name ↦ control structure. -/")
+    L.append("def exprRules : List (String × Gram.Rule) := " + X.lean_list(list(rules.items()), lambda kv: f"({_lean_s(kv[0])}, {rule(kv[1])})"))
+    L.append(f"def exprTop : Gram.Top := {{ eofTok := {_lean_s(top['eof'])}, emptyConst := {b(top['const'])}, sub := {_lean_s(top['sub'])}, eofRequired := {b(top['eofreq'])} }}")
+    L.append("/-- The if/elif chain of `Scanner.lex`. -/")
+    kws = X.lean_list(f["keywords"], lambda r: f"({lean_chars(r[0])}, {_lean_s(r[1])})")
+    L.append("def exprLexBranches : List Gram.LexBranch := ["
+             + f".skip {lean_chars(f['ws'])}, .single {lean_char(f['lparen'])} \"LPAREN\", .single {lean_char(f['rparen'])} \"RPAREN\", "
+             + f".run {lean_chars(f['extra'])} {b(f['word'])} {kws} \"IDENT\"]")
+    for cname, key in (("KeywordMatcher", "kwMatcher"), ("MarkMatcher", "markMatcher")):
+        m = mf[cname]
+        L.append(f"def {key} : Gram.Matcher := {{ sources := {X.lean_list(m['sources'], _lean_s)}, lowerNamesAtCreate := {b(m['lower_create'])}, "
+                 f"lowerQueryAtCall := {b(m['lower_q'])}, lowerNamesAtCall := {b(m['lower_n'])}, test := {_lean_s(m['test'])} }}")
+    for fname, key in (("select_by_keyword", "selKeyword"), ("select_by_mark", "selMark"), ("select_by_after_keyword", "selAfter")):
+        s = sf[fname]
+        L.append(f"def {key} : Gram.Select := {{ noneWhenEmpty := {b(s['none'])}, parseErrorIsError := true, matcher := {_lean_s(s['matcher'])}, "
+                 f"guardNonEmpty := {b(s['guard'])}, closure := {b(s['closure'])} }}")
+    L.append("")
+    return L
